@@ -77,6 +77,9 @@ def check_values(case):
     hist = []
     for mid, m in enumerate(ms):
         sim.fundamentals.add_market(market_id=mid, initial=100.0 + 10 * mid, drift=0.0, volatility=0.02)
+    if case.get("registered"):
+        # a hand-built simulator may also register the index market with the fundamentals generator; its recorded value is still the components' weighted average
+        sim.fundamentals.add_market(market_id=idx.market_id, initial=450.0, drift=0.0, volatility=0.0)
     order = list(sim.markets)
     rng.shuffle(order)          # the index market may be listed before its components: all markets still advance together, components first
     for t in range(case["steps"]):
@@ -118,6 +121,8 @@ def value_cases(tier):
     for seed in range(n):
         for comps in ([0, 1], [2, 0, 1], [1]):
             yield {"kind": "values", "seed": seed, "comps": comps, "steps": 3}
+            if seed % 8 == 1:
+                yield {"kind": "values", "seed": seed, "comps": comps, "steps": 3, "registered": True}
     # share patterns with arithmetic coincidences (first = mean of all, all equal, one dominating)
     for seed, shares in enumerate(([200, 100, 300], [100, 200, 300], [7, 7, 7], [300, 100, 200], [1, 1, 1000], [2, 1, 3])):
         for comps in ([0, 1, 2], [1, 2, 0], [2, 0, 1]):
